@@ -39,7 +39,7 @@ BUILD = f"{M_BUILDER}::FieldUnpackerCodeBlockBuilder.build"
 UL = f"{M_BUILDER}::CodeBuilder._add_unpack_method_lines"
 
 
-def run(repo: Repo, rep: Report, tier: str) -> None:
+def _r07_2(repo: Repo, rep: Report) -> None:
     res = fieldblock.analyse(repo)
     rep.analysed.update({"build_paths": res.paths, "distinct_blocks": res.skeletons, "valuations": res.valuations})
     for u in res.undecided:
@@ -65,6 +65,9 @@ def run(repo: Repo, rep: Report, tier: str) -> None:
         rep.samples.append({"rule": "R07.2", **{k: str(v) for k, v in s.items()}})
     rep.floor("R07.2", 150)
 
+
+def run(repo: Repo, rep: Report, tier: str) -> None:
+    _r07_2(repo, rep)
     c = corpus_mod.explore_all(repo, tier)
     for e in c.errors:
         rep.undecide("corpus", e)
